@@ -34,33 +34,34 @@ Apply(m, v) == << v[1]*m[1] + v[2]*m[4] + v[3]*m[7], v[1]*m[2] + v[2]*m[5] + v[3
 Ranges == { <<-1, 1>>, <<0, 1>>, <<-1, 0>>, <<0, 0>>, <<-2, -1>> }
 TrSet == { Tr(<<0,0,0>>, <<0,1,0, -1,0,0, 0,0,1>>), Tr(<<1,0,0>>, IdM), Tr(<<0,0,0>>, <<-1,0,0, 0,-1,0, 0,0,1>>) }
 
-VARIABLES pc, hex, orient, order, first, eight, h7, ranges, arr, ftr, ctr
-vars == <<pc, hex, orient, order, first, eight, h7, ranges, arr, ftr, ctr>>
+VARIABLES pc, hex, orient, order, first, eight, h7, ranges, arr, ftr, ctr, ltr
+vars == <<pc, hex, orient, order, first, eight, h7, ranges, arr, ftr, ctr, ltr>>
 
 Init == /\ pc = "cell" /\ hex = (CHOOSE h \in Hexes : TRUE) /\ orient = IdM /\ order = <<1, 2, 3>> /\ first = <<1, 1, 1>>
         /\ eight = FALSE /\ h7 = 1 /\ ranges = <<>> /\ arr = <<>>
-        /\ ftr = [has |-> FALSE, tr |-> NoTr] /\ ctr = [has |-> FALSE, tr |-> NoTr]
+        /\ ftr = [has |-> FALSE, tr |-> NoTr] /\ ctr = [has |-> FALSE, tr |-> NoTr] /\ ltr = [has |-> FALSE, tr |-> NoTr]
 Cell == /\ pc = "cell"
         /\ \E h \in Hexes, o \in Orients, pm \in Perms3 : hex' = h /\ orient' = o /\ order' = pm
-        /\ pc' = "sides" /\ UNCHANGED <<first, eight, h7, ranges, arr, ftr, ctr>>
+        /\ pc' = "sides" /\ UNCHANGED <<first, eight, h7, ranges, arr, ftr, ctr, ltr>>
 Sides == /\ pc = "sides"
          /\ \E f \in [1..3 -> {-1, 1}], e \in BOOLEAN, s7 \in {-1, 1} : first' = f /\ eight' = e /\ h7' = s7
-         /\ ranges' = <<>> /\ pc' = "ranges" /\ UNCHANGED <<hex, orient, order, arr, ftr, ctr>>
+         /\ ranges' = <<>> /\ pc' = "ranges" /\ UNCHANGED <<hex, orient, order, arr, ftr, ctr, ltr>>
 NDims == IF eight THEN 3 ELSE 2
 Rng == /\ pc = "ranges" /\ Len(ranges) < NDims
        /\ \E r \in Ranges : ranges' = Append(ranges, r)
-       /\ UNCHANGED <<pc, hex, orient, order, first, eight, h7, arr, ftr, ctr>>
+       /\ UNCHANGED <<pc, hex, orient, order, first, eight, h7, arr, ftr, ctr, ltr>>
 Trs == /\ pc = "ranges" /\ Len(ranges) = NDims
        /\ \E ft \in { [has |-> FALSE, tr |-> NoTr] } \cup { [has |-> TRUE, tr |-> t] : t \in TrSet },
-             ct \in { [has |-> FALSE, tr |-> NoTr] } \cup { [has |-> TRUE, tr |-> t] : t \in TrSet } :
-            ftr' = ft /\ ctr' = ct
+             ct \in { [has |-> FALSE, tr |-> NoTr] } \cup { [has |-> TRUE, tr |-> t] : t \in TrSet },
+             lt \in { [has |-> FALSE, tr |-> NoTr] } \cup { [has |-> TRUE, tr |-> t] : t \in TrSet } :
+            ftr' = ft /\ ctr' = ct /\ ltr' = lt
        /\ arr' = <<>> /\ pc' = "fill" /\ UNCHANGED <<hex, orient, order, first, eight, h7, ranges>>
 Size == LET RECURSIVE Pr(_) Pr(d) == IF d = 0 THEN 1 ELSE (ranges[d][2] - ranges[d][1] + 1) * Pr(d - 1) IN Pr(Len(ranges))
 Fill == /\ pc = "fill" /\ Len(arr) < Size
         /\ \E u \in {0, 1, 2, 3} : arr' = Append(arr, u)
-        /\ UNCHANGED <<pc, hex, orient, order, first, eight, h7, ranges, ftr, ctr>>
+        /\ UNCHANGED <<pc, hex, orient, order, first, eight, h7, ranges, ftr, ctr, ltr>>
 Done == /\ pc = "fill" /\ Len(arr) = Size /\ pc' = "emit"
-        /\ UNCHANGED <<hex, orient, order, first, eight, h7, ranges, arr, ftr, ctr>>
+        /\ UNCHANGED <<hex, orient, order, first, eight, h7, ranges, arr, ftr, ctr, ltr>>
 
 (* geometry in space *)
 V0 == Apply(orient, hex[1])
@@ -83,8 +84,10 @@ AxPlane(pos) == LET s == IF pos = 7 THEN h7 ELSE -h7
                 IN Card(100 + pos, "p", <<s*Axis[1], s*Axis[2], s*Axis[3], 2>>)
 NPlanes == IF eight THEN 8 ELSE 6
 CellGeom == <<"*">> \o [pos \in 1..NPlanes |-> <<"S", -(100 + pos), 0>>]
-LVecs == << Scale(2, SideT(PairAt(1), SignAt(1))), Scale(2, SideT(PairAt(3), SignAt(3))) >>
-         \o (IF eight THEN << Scale(2 * 4 * h7, Axis) >> ELSE <<>>)
+LVecs0 == << Scale(2, SideT(PairAt(1), SignAt(1))), Scale(2, SideT(PairAt(3), SignAt(3))) >>
+          \o (IF eight THEN << Scale(2 * 4 * h7, Axis) >> ELSE <<>>)
+(* the cell's own TRCL turns the whole lattice: the base vectors are turned with it *)
+LVecs == [d \in 1..Len(LVecs0) |-> VecToMain(ltr.tr, LVecs0[d])]
 
 (* declarative statement of the convention, checked on every generated deck *)
 HexVecsOK ==
@@ -105,7 +108,7 @@ PlainCell(n, geom, u, mat) ==
    lranges |-> <<>>, lunivs |-> <<>>, lvecs |-> <<>>, latopt |-> FALSE]
 Deck ==
   LET lc == [PlainCell(10, CellGeom, 1, 3) EXCEPT !.lat = 2, !.lranges = ranges, !.lunivs = arr, !.lvecs = LVecs,
-                                                   !.hasftr = ftr.has, !.ftr = ftr.tr]
+                                                   !.hasftr = ftr.has, !.ftr = ftr.tr, !.hastrcl = ltr.has, !.trcl = ltr.tr]
       world == << [PlainCell(1, S(-1), 0, 0) EXCEPT !.fill = 1, !.hasftr = ctr.has, !.ftr = ctr.tr],
                   [PlainCell(2, S(1), 0, 0) EXCEPT !.imp = 0] >>
       u2 == << PlainCell(21, <<"*", S(-21), S(-22)>>, 2, 1), PlainCell(22, <<"C", 21>>, 2, 2) >>
@@ -114,7 +117,7 @@ Deck ==
   IN [cells |-> world \o <<lc>> \o u2 \o u3,
       surfs |-> << Card(1, "so", <<7>>), Card(21, "px", <<0>>), Card(22, "py", <<0>>), Card(23, "pz", <<0>>) >> \o planes]
 Emit == pc = "emit" /\ PrintT(ToJson(Deck)) /\ pc' = "done"
-        /\ UNCHANGED <<hex, orient, order, first, eight, h7, ranges, arr, ftr, ctr>>
+        /\ UNCHANGED <<hex, orient, order, first, eight, h7, ranges, arr, ftr, ctr, ltr>>
 Next == Cell \/ Sides \/ Rng \/ Trs \/ Fill \/ Done \/ Emit
 LatticeVecsOK == HexVecsOK
 =============================================================================
